@@ -279,10 +279,16 @@ class CFG:
         for e in exprs:
             if e is None:
                 continue
+            awaited_ok: set[int] = set()
             for n in _walk_expr(e):
                 if isinstance(n, ast.Await):
+                    # awaiting a call that cannot raise can still be cancelled (CancelledError)
+                    if isinstance(n.value, ast.Call) and self.call_no_raise(n.value):
+                        atoms.add(G_BASE)
+                        awaited_ok.add(id(n.value))
+                        continue
                     return set(ALL_GROUPS)
-                if isinstance(n, ast.Call) and not self.call_no_raise(n):
+                if isinstance(n, ast.Call) and id(n) not in awaited_ok and not self.call_no_raise(n):
                     return set(ALL_GROUPS)
         return atoms
 
